@@ -14,7 +14,36 @@ ID = "C12"
 PROPS_FILE = "Props/C12.v"
 GEN_DEPS = ["GenUnits"]
 ALLOWED_AXIOMS: List[str] = []
-THEOREMS: Dict[str, str] = {}      # filled from the statuses below (see bottom)
+THEOREMS: Dict[str, str] = {
+    "C12_table_builds": "full",
+    "C12_names_are_documented": "full",
+    "C12_names_distinct": "full",
+    "C12_names_lowercase": "full",
+    "C12_case_variants_spelled": "full",
+    "C12_every_name_recognised": "full",
+    "C12_longest_wins": "full",
+    "C12_known_unit_sound": "full",
+    "C12_recognised_in_quantity": "full",
+    "C12_preposition_of_the": "full",
+    "C12_preposition_of": "full",
+    "C12_factor_physical": "full",
+    "C12_reciprocal": "full",
+    "C12_transitive": "full",
+    "C12_refused_across_kinds": "full",
+    "C12_alt_list": "full",
+    "C12_alt_forms_value": "full",
+    "C12_assert_cannot_fail_exact": "full",
+    "C12_assert_cannot_fail_float_partial": "partial",
+    "C12_equal_amounts_exact_partial": "partial",
+    "C12_unequal_across_kinds": "full",
+    "C12_ex_names": "example",
+    "C12_ex_prefix_pairs": "example",
+    "C12_ex_scanner": "example",
+    "C12_ex_spelled": "example",
+    "C12_ex_convert": "example",
+    "C12_ex_equal": "example",
+    "C12_ex_alt": "example",
+}
 TRUSTED = [
     "Coq 8.16.1 kernel (vm_compute for the complete enumeration over the generated table and for correspondence)",
     "translator GenUnits: UNIT_SYSTEM (names, definitions), ALL_UNITS_REGEX_LITERAL, the compiled known_unit / "
@@ -40,20 +69,26 @@ RULE = ("tail: every unit name x letter-case variants (all-lower, all-upper, tit
 # size of one unit in the base unit of its kind, by name; values are the legal definitions
 _LB = Fraction("453.59237")
 REF: Dict[str, Tuple[str, Fraction]] = {}
-for _names, _k, _v in [
-    (("g", "gram", "grams"), "mass", Fraction(1)),
-    (("kg", "kilo", "kilos", "kilogram", "kilograms"), "mass", Fraction(1000)),
-    (("lb", "lbs", "pound", "pounds"), "mass", _LB),
-    (("oz", "ozs", "ounce", "ounces"), "mass", _LB / 16),
-    (("l", "litre"), "volume", Fraction(1000)),
-    (("ml", "mill", "mills", "milliliter", "milliliters"), "volume", Fraction(1)),
-    (("tsp", "tsps", "teaspoons", "teaspoon", "tea spoon", "tea spoons"), "volume", Fraction(5)),
-    (("tbsp", "tbsps", "tablespoon", "tablespoons", "table spoon", "table spoons"), "volume", Fraction(15)),
-    (("cup", "cups"), "volume", Fraction("236.5882365")),
-    (("pint", "pints"), "volume", Fraction("568.26125")),
+REF_TOL: Dict[str, Fraction] = {}     # accuracy to which units.py states the constant (cup: 5 d.p., pint: 3 d.p.)
+for _names, _k, _v, _t in [
+    (("g", "gram", "grams"), "mass", Fraction(1), 0),
+    (("kg", "kilo", "kilos", "kilogram", "kilograms"), "mass", Fraction(1000), 0),
+    (("lb", "lbs", "pound", "pounds"), "mass", _LB, 0),
+    (("oz", "ozs", "ounce", "ounces"), "mass", _LB / 16, 0),
+    (("l", "litre"), "volume", Fraction(1000), 0),
+    (("ml", "mill", "mills", "milliliter", "milliliters"), "volume", Fraction(1), 0),
+    (("tsp", "tsps", "teaspoons", "teaspoon", "tea spoon", "tea spoons"), "volume", Fraction(5), 0),
+    (("tbsp", "tbsps", "tablespoon", "tablespoons", "table spoon", "table spoons"), "volume", Fraction(15), 0),
+    (("cup", "cups"), "volume", Fraction("236.5882365"), Fraction(5, 10 ** 8)),
+    (("pint", "pints"), "volume", Fraction("568.26125"), Fraction(5, 10 ** 7)),
 ]:
     for _n in _names:
         REF[_n] = (_k, _v)
+        REF_TOL[_n] = Fraction(_t)
+
+
+def pair_tol(a: str, b: str) -> Fraction:
+    return REF_TOL.get(a, Fraction(0)) + REF_TOL.get(b, Fraction(0)) + Fraction(1, 10 ** 12)
 
 
 def _us():
@@ -242,7 +277,7 @@ def convert_case(a: str, b: str, tags=("convert",)) -> Case:
             f = Fraction(r[1])
             if pa is not None and pb is not None:
                 ideal = pa[1] / pb[1]
-                if abs(f - ideal) > ideal / 10 ** 6:
+                if abs(f - ideal) > ideal * pair_tol(a, b):
                     viol = f"factor {a!r} -> {b!r} is {r[1]!r}, physical value {float(ideal)!r}"
             back = run_res(lambda: US.convert_between(b, a))
             if viol is None and (back[0] != "ok" or abs(f * Fraction(back[1]) - 1) > Fraction(1, 10 ** 12)):
@@ -358,12 +393,14 @@ def equal_case(va, ua, vb, ub) -> Case:
             A, B = Fraction(va) * pa[1], Fraction(vb) * pb[1]
             rel = abs(A - B) / max(abs(A), abs(B)) if (A or B) else Fraction(0)
             tags.append("equal:same" if rel == 0 else "equal:near-1e-9" if rel < Fraction(1, 10 ** 7) else "equal:far")
-            # the reference uses the legal constants, the code rounded literals (cup, pint): allow 1e-6
-            exact_units = not ({"cup", "cups", "pint", "pints"} & {ua.lower(), ub.lower()}) or \
-                ({ua.lower(), ub.lower()} <= {"cup", "cups"}) or ({ua.lower(), ub.lower()} <= {"pint", "pints"})
-            if r[1] and rel > (Fraction(3, 10 ** 9) if exact_units else Fraction(2, 10 ** 6)):
+            # the reference uses the legal constants, the code rounded literals (cup, pint)
+            slack = pair_tol(ua.lower(), ub.lower())
+            if kind_of(ua.lower()) is not None and _us().unit_sets[ka].normalise_unit_name(ua.lower()) == \
+                    _us().unit_sets[ka].normalise_unit_name(ub.lower()):
+                slack = Fraction(1, 10 ** 12)
+            if r[1] and rel > Fraction(11, 10 ** 10) + slack:
                 viol = f"{va!r} {ua!r} and {vb!r} {ub!r} differ by {float(rel):.3g} relative but compare equal"
-            if not r[1] and rel < (Fraction(1, 10 ** 10) if exact_units else Fraction(0)) or (not r[1] and rel == 0 and exact_units):
+            if not r[1] and rel + slack < Fraction(9, 10 ** 10):
                 viol = f"{va!r} {ua!r} and {vb!r} {ub!r} are the same amount (rel. diff {float(rel):.3g}) but compare unequal"
     return Case(input={"suite": "equal", "a": [coqio.num_json(va), ua], "b": [coqio.num_json(vb), ub]},
                 coq_in=coqio.pair(quantity_term(va, ua), quantity_term(vb, ub)),
